@@ -148,7 +148,8 @@ func setupPlainMode(in *initializer, args *Args) {
 	args.Quiet = true
 	args.NoColor = true
 	in.Client.TermColorsEnable = false
-	if args.LogLevel == "" {
+	// The log level flag defaults to DefaultLogLevel, it is never empty.
+	if args.LogLevel == "" || args.LogLevel == DefaultLogLevel {
 		args.LogLevel = "ERROR"
 		in.Common.LogLevel = "ERROR"
 	}
